@@ -105,6 +105,31 @@ CLAIMS = {
                 "hits that are in the referenced set, one bad reference does not cancel the rest; delete_event has a fixed caller set.",
         "not_decided": "scanner arithmetic of the author index; completeness of removal.",
     },
+    "C12": {
+        "technique": "value provenance of the cut-off (min with the configured maximum), falsy-zero lint, must-pass-through of ORDER BY "
+                     "before LIMIT and of the count test before the append, model-bound extraction, monotone-accumulation rule",
+        "text": TXT + "Decides: limit declared ge=0; the SQL LIMIT variable and the LMDB plan limit are capped by the configured maximum; "
+                "0 is honoured; ORDER BY created_at DESC precedes LIMIT on every path; the LMDB append is dominated by count < limit; "
+                "order-destroying containers before the cut-off and last-wins composition are reported.",
+        "not_decided": "descending order of one reverse cursor walk; merge of per-value runs (part of the recorded finding).",
+    },
+    "C02": {
+        "technique": "decision-list ownership analysis of the residual compiler against the planner's emitted keys, falsy-zero lint, sibling "
+                     "comparison of the authors clause, key-layout table derived from the writer and compared with every reader slice, "
+                     "shared-singleton statelessness lint",
+        "text": TXT + "Decides (necessary conditions only): every planner key is owned by a residual branch for all values; since/until presence "
+                "tests keep 0; authors/delegation agreement across matchers; writer widths == reader slices == filter bounds; plan bound >= 5; "
+                "index singletons keep no per-scan state.",
+        "not_decided": "completeness of the LMDB scanner over arbitrary key neighbourhoods; exactly-once on SQL; bound-parameter collisions.",
+    },
+    "C09": {
+        "technique": "conjunct extraction from the candidate SELECT / DELETE expressions, structural check of the LMDB scan arguments, "
+                     "CFG must-pass-through of the d-value equality before each deletion, string-as-container lint, all-victims rule",
+        "text": TXT + "Decides (necessary conditions only): all four replaceable classes handled in both backends; candidates constrained to same "
+                "author, same kind, older - and to nothing more; own record skipped; no first()/break picks one victim; a candidate of a "
+                "parameterized-replaceable kind is deleted only after equality of normalised d values.",
+        "not_decided": "arrival-order outcomes, equal timestamps; whether an older incoming event is itself kept.",
+    },
 }
 
 PENDING = "checker for this property is not implemented yet in this revision; nothing is claimed"
